@@ -1205,6 +1205,9 @@ func Abolish(vm *VM, pi Term, k Cont, env *Env) *Promise {
 func CurrentInput(vm *VM, stream Term, k Cont, env *Env) *Promise {
 	switch env.Resolve(stream).(type) {
 	case Variable, *Stream:
+		if vm.input == nil { // A VM without standard streams: a nil *Stream must not become a term.
+			return Error(existenceError(objectTypeStream, atomUserInput, env))
+		}
 		return Unify(vm, stream, vm.input, k, env)
 	default:
 		return Error(domainError(validDomainStream, stream, env))
@@ -1215,6 +1218,9 @@ func CurrentInput(vm *VM, stream Term, k Cont, env *Env) *Promise {
 func CurrentOutput(vm *VM, stream Term, k Cont, env *Env) *Promise {
 	switch env.Resolve(stream).(type) {
 	case Variable, *Stream:
+		if vm.output == nil { // A VM without standard streams: a nil *Stream must not become a term.
+			return Error(existenceError(objectTypeStream, atomUserOutput, env))
+		}
 		return Unify(vm, stream, vm.output, k, env)
 	default:
 		return Error(domainError(validDomainStream, stream, env))
